@@ -19,9 +19,11 @@ VIOLATIONS = []      # out-of-extent accesses recorded in lenient mode
 STRICT = [True]
 
 
-def _violation(msg):
+def _violation(msg, arr=None):
     if STRICT[0]:
-        raise ExtentError(msg)
+        e = ExtentError(msg)
+        e.src_declared = bool(getattr(arr, 'src_declared', False))
+        raise e
     VIOLATIONS.append(msg)
 
 
@@ -30,6 +32,12 @@ class CArr:
     (lenient mode: recorded in VIOLATIONS and served from an overflow area, as adjacent stack memory would)"""
 
     def __init__(self, shape, name='?'):
+        # src_declared: the extent comes from the SOURCE (a `cdef type[N] x` declaration transliterated into CArr((N,), ...) inside the function body), not from the harness
+        import sys as _sys
+        try:
+            self.src_declared = _sys._getframe(1).f_code.co_filename.startswith('TidalPy/')
+        except Exception:
+            self.src_declared = False
         self.shape = tuple(shape) if isinstance(shape, (tuple, list)) else (shape,)
         n = 1
         for s in self.shape:
@@ -50,14 +58,14 @@ class CArr:
             return _Row(self, int(i))
         i = int(i)
         if not (0 <= i < self.extent):
-            _violation('read %s[%d] beyond declared extent %d' % (self.name, i, self.extent))
+            _violation('read %s[%d] beyond declared extent %d' % (self.name, i, self.extent), self)
             return self.overflow.get(i)
         return self.data[i]
 
     def __setitem__(self, i, v):
         i = int(i)
         if not (0 <= i < self.extent):
-            _violation('write %s[%d] beyond declared extent %d' % (self.name, i, self.extent))
+            _violation('write %s[%d] beyond declared extent %d' % (self.name, i, self.extent), self)
             self.overflow[i] = v
             return
         self.writes += 1
@@ -100,14 +108,14 @@ class Ptr:
     def __getitem__(self, i):
         k = self.off + int(i)
         if not (0 <= k < self._ext()):
-            _violation('pointer read at offset %d beyond extent %d of %s' % (k, self._ext(), getattr(self.base, 'name', 'buffer')))
+            _violation('pointer read at offset %d beyond extent %d of %s' % (k, self._ext(), getattr(self.base, 'name', 'buffer')), self.base)
             return self.base.overflow.get(k) if isinstance(self.base, CArr) else None
         return self.base.data[k] if isinstance(self.base, CArr) else self.base[k]
 
     def __setitem__(self, i, v):
         k = self.off + int(i)
         if not (0 <= k < self._ext()):
-            _violation('pointer write at offset %d beyond extent %d of %s' % (k, self._ext(), getattr(self.base, 'name', 'buffer')))
+            _violation('pointer write at offset %d beyond extent %d of %s' % (k, self._ext(), getattr(self.base, 'name', 'buffer')), self.base)
             if isinstance(self.base, CArr):
                 self.base.overflow[k] = v
             return
